@@ -335,18 +335,121 @@ def c13_7(ctx):
     ctx.check(ok, 'count:operandless-variant', iv.site(), 'operands given to a variant without operands mean no match', '')
 
 
+def _anchored(e) -> bool | None:
+    """Does the regex source expression start with ^ and end with an unescaped $? None when it cannot be told."""
+    if isinstance(e, ast.Constant) and isinstance(e.value, str):
+        t = e.value
+        return t.startswith('^') and t.endswith('$') and not t.endswith('\\$')
+    if isinstance(e, ast.JoinedStr) and e.values:
+        a, b = e.values[0], e.values[-1]
+        if isinstance(a, ast.Constant) and isinstance(b, ast.Constant):
+            return a.value.startswith('^') and b.value.endswith('$') and not b.value.endswith('\\$')
+        return False
+    return None
+
+
+def parent_of(root, node):
+    for n in ast.walk(root):
+        for ch in ast.iter_child_nodes(n):
+            if ch is node:
+                return n
+    return None
+
+
+def c13_8(ctx):
+    ctx.rule('C13.8', 'an operand form matches only if it accounts for the whole operand text', 10)
+    base = ctx.repo.cls('bespokeasm.assembler.model.operand.Operand')
+    for c in base.all_subclasses():
+        f = c.methods.get('parse_operand')
+        if f is None:
+            continue
+        key = f'whole-operand:{c.name}'
+        if c.name == 'EmptyOperand':
+            ctx.ok(key, f.site(), 'the empty operand is only ever parsed with empty text (null operands are matched by count, never from an operand set)', 'reviewed exception')
+            continue
+        res = resolver(ctx, f, inline=False)
+        ctors = [x for x in ast.walk(f.node) if isinstance(x, ast.Call) and unparse(x.func) == 'ParsedOperand']
+        deleg = []
+        for r in returns(f):
+            v = deref(ctx, f, r.value, r) if r.value is not None else None
+            if isinstance(v, ast.Call) and unparse(v.func) in ('self._parse_bytecode_parts', 'super().parse_operand') and len(v.args) > 1 and unparse(v.args[1]) == 'operand':
+                deleg.append(v)
+        scan = [f]
+        if any(unparse(v.func) == 'self._parse_bytecode_parts' for v in deleg):
+            h = c.lookup('_parse_bytecode_parts')
+            if h is not None:
+                scan.append(h)
+            deleg = [v for v in deleg if unparse(v.func) != 'self._parse_bytecode_parts']
+        # (C) the whole operand text is what the expression parser gets: the lexer (C07.4) rejects anything it cannot tokenise
+        whole_expr = False
+        for x in [y for g_ in scan for y in ast.walk(g_.node)]:
+            if isinstance(x, ast.Call) and unparse(x.func).endswith('ByteCodePart') or (isinstance(x, ast.Call) and 'ByteCodePart' in unparse(x.func)):
+                tgt_cls = ctx.repo.classes.get('bespokeasm.assembler.bytecode.parts.' + unparse(x.func)) or next(
+                    (k for q, k in ctx.repo.classes.items() if q.endswith('.' + unparse(x.func))), None)
+                init = tgt_cls.lookup('__init__') if tgt_cls is not None else None
+                if init is not None:
+                    b = bind_args(x, init)
+                    for pn in ('value_expression', 'expression', 'value_expr'):
+                        if pn in b and unparse(b[pn]) in ('operand', 'operand.strip()'):
+                            whole_expr = True
+        # (A) an anchored pattern whose match gates the construction  /  (B) the match must end where the operand ends
+        anchored = end_checked = False
+        unanch = []
+        for x in ast.walk(f.node):
+            if not (isinstance(x, ast.Call) and isinstance(x.func, ast.Attribute) and x.func.attr in ('match', 'fullmatch', 'search')):
+                continue
+            recv = unparse(x.func.value)
+            pat = x.args[0] if recv == 're' and x.args else x.func.value
+            subject = x.args[1] if recv == 're' and len(x.args) > 1 else (x.args[0] if x.args else None)
+            if subject is None or not unparse(subject).startswith('operand'):
+                continue
+            # only a match the construction depends on (a search whose hit means "no match" is a veto, not an acceptance)
+            pm_ = parent_of(f.node, x)
+            var = unparse(pm_.targets[0]) if isinstance(pm_, ast.Assign) and len(pm_.targets) == 1 else None
+            if var is None or not any(any(l == ('isnone', var, False) for l in cl) for ct in ctors for cl in facts_at(ctx, f, ct, res)):
+                continue
+            d = deref(ctx, f, pat, x)
+            if isinstance(d, ast.Attribute) and unparse(d).startswith('self._'):
+                for k in [c] + c.mro()[1:]:
+                    init = k.methods.get('__init__')
+                    st = [v for _, t, v in self_attr_stores(init.node, d.attr)] if init is not None else []
+                    if st:
+                        d = st[0]
+                        break
+            if isinstance(d, ast.Call) and unparse(d.func) == 're.compile' and d.args:
+                d = d.args[0]
+            a = True if x.func.attr == 'fullmatch' else _anchored(d)
+            if a:
+                anchored = True
+            else:
+                unanch.append(unparse(x)[:70])
+            # match end compared with the operand's length
+            for ct in ctors:
+                for cl in facts_at(ctx, f, ct, res):
+                    for l in cl:
+                        if l[0] in ('eq',) and '.end()' in str(l[1]) and 'len(' in str(l[1]) and len(cl) == 1:
+                            end_checked = True
+        ok = bool(deleg) or whole_expr or end_checked or (anchored and not unanch)
+        ctx.check(ok, key, f.site(), f'{c.name} accepts an operand only if its pattern (anchored at both ends, or checked to end where the operand ends) or the expression parser accounts for all of its text',
+                  f'unanchored match {unanch} and neither an end-of-operand check nor the whole text handed to the expression parser: trailing text after a valid prefix is silently dropped')
+
+
 def c13_macros(ctx):
     """Macros choose their variant through the same selection as instructions (C10.3): same operand split, same order."""
     from rules.c10 import c10_3
     c10_3(ctx)
 
 
-RULES = [c13_1, c13_2, c13_3, c13_4, c13_5, c13_6, c13_7, c13_macros]
+RULES = [c13_1, c13_2, c13_3, c13_4, c13_5, c13_6, c13_7, c13_8, c13_macros]
 
 _GI = 'assembler/bytecode/generator/instruction.py'
 _OPF = 'assembler/model/operand_parser.py'
 _OSF = 'assembler/model/operand_set.py'
 MUTANTS = [
+    V('c13-enum-prefix-match', 'assembler/model/operand/types/enumeration_operand.py', "        match = re.match(fr'^{self.match_pattern}$', operand.strip())", "        match = re.match(self.match_pattern, operand.strip())", 'C13.8'),
+    V('c13-relative-trailing-text', 'assembler/model/operand/types/relative_address.py', "        if match.end() != len(operand.strip()):\n            return None\n", "", 'C13.8'),
+    V('c13-register-no-end-anchor', 'assembler/model/operand/types/register.py', "            fr'^{self.match_pattern}$',\n            operand.strip(),\n            flags=re.IGNORECASE,", "            fr'^{self.match_pattern}',\n            operand.strip(),\n            flags=re.IGNORECASE,", 'C13.8'),
+    V('c13-indirect-no-end-anchor', 'assembler/model/operand/types/indirect_register.py', "            fr'^{self.match_pattern}$',\n            flags=re.IGNORECASE | re.MULTILINE", "            fr'^{self.match_pattern}',\n            flags=re.IGNORECASE | re.MULTILINE", 'C13.8'),
     V('c13-variants-reversed', _GI, '        for variant in instruction.variants:', '        for variant in reversed(instruction.variants):', 'C13.1'),
     V('c13-variants-by-count', _GI, '        for variant in instruction.variants:', '        for variant in sorted(instruction.variants, key=lambda v: 0 if v._operand_parser is None else 1):', 'C13.1'),
     V('c13-sets-first', _OPF, '''        # Step 1 - Look for specific operand matches
